@@ -14,10 +14,17 @@ for p in props.split(","):
 for e in expect.split("|"):
     out.append("# expect: %s\n" % e)
 files = {}
+BASE = os.environ.get("MK_BASE")  # a scratch copy with a behaviour-preserving refactoring applied: the mutant is refactoring + break
+if BASE:
+    import re as _re
+    for ln in open(os.environ["MK_BASE_PATCH"]):
+        m_ = _re.match(r"^\+\+\+ b/(\S+)", ln)
+        if m_:
+            files[m_.group(1)] = open(os.path.join(BASE, m_.group(1))).read()
 for i in range(0, len(rest), 3):
     f, old, new = rest[i:i + 3]
     if f not in files:
-        files[f] = open(os.path.join("/repo", f)).read()
+        files[f] = open(os.path.join(BASE or "/repo", f)).read()
     if files[f].count(old) != 1:
         sys.exit("mk: %r occurs %d times in %s" % (old[:60], files[f].count(old), f))
     files[f] = files[f].replace(old, new)
